@@ -1592,3 +1592,43 @@ func lemmaC12_rx1_rule_US915(rep bool, dr, off int) {
 	}
 	verifAssert(err != nil || r == want, "rx1-rule")
 }
+
+// ---------------------------------------------------------------------------- large plans (US915, AU915, CN470)
+// C12: every existing uplink channel has an RX1 channel, and that RX1 channel exists (the frequency
+// agreement lemma of the small plans exceeds the exploration budget on 72/96 channels)
+func lemmaC12_rx1_channel_total_US915(rep bool, i int) {
+	b, _ := newUS902Band(rep)
+	_, err := b.GetUplinkChannel(i)
+	if err != nil {
+		return
+	}
+	j, err1 := b.GetRX1ChannelIndexForUplinkChannelIndex(i)
+	verifAssert(err1 == nil, "rx1-channel-ok")
+	_, err2 := b.GetDownlinkChannel(j)
+	verifAssert(err2 == nil, "rx1-channel-exists")
+}
+
+func lemmaC12_rx1_channel_total_AU915(rep bool, dt lorawan.DwellTime, i int) {
+	verifAssume(dt == lorawan.DwellTimeNoLimit || dt == lorawan.DwellTime400ms)
+	b, _ := newAU915Band(rep, dt)
+	_, err := b.GetUplinkChannel(i)
+	if err != nil {
+		return
+	}
+	j, err1 := b.GetRX1ChannelIndexForUplinkChannelIndex(i)
+	verifAssert(err1 == nil, "rx1-channel-ok")
+	_, err2 := b.GetDownlinkChannel(j)
+	verifAssert(err2 == nil, "rx1-channel-exists")
+}
+
+func lemmaC12_rx1_channel_total_CN470(rep bool, i int) {
+	b, _ := newCN470Band(rep)
+	_, err := b.GetUplinkChannel(i)
+	if err != nil {
+		return
+	}
+	j, err1 := b.GetRX1ChannelIndexForUplinkChannelIndex(i)
+	verifAssert(err1 == nil, "rx1-channel-ok")
+	_, err2 := b.GetDownlinkChannel(j)
+	verifAssert(err2 == nil, "rx1-channel-exists")
+}
